@@ -401,6 +401,50 @@ def part_ordered_publish_faults(ctx):
 
 
 
+def part_publish_faults(ctx):
+    """C01: a Publish hit by a storage fault either reports the failure or has stored everything: an
+    accepted publish (answer OK, message ids) whose messages are not there is a lost message"""
+    p = Part("publish-under-fault")
+    d = os.path.join(ctx["work"], "faultenum_c01")
+    rc, out = harness(["fault-enum", "-out", d, "-only", "publish-single,publish-batch-ordered,publish-large"], timeout=1500)
+    if rc != 0:
+        p.violation("harness-failed", "fault enumeration failed: " + out[-1500:], dict(log=out[-3000:]), found_input=False)
+        return p
+    info = json.load(open(os.path.join(d, "faultenum.json")))
+    res = info["results"]
+    p.evaluations = len(res)
+    p.traces = len(res)
+    p.nontrivial = sum(1 for r in res if r["errored"])
+    p.samples = res[:2]
+    p.info = dict(statements=info["statements_per_operation"])
+    seen = set()
+    for r in res:
+        if "cancellation not delivered" in r["call"]:
+            continue
+        if not r["errored"] and r["unchanged"]:
+            key = "accepted-publish-not-stored"
+            if key not in seen:
+                seen.add(key)
+                p.violation(key, "%s with statement %d/%d (%s, %s) failing: Publish answered OK with message ids, and no message and no delivery was stored" %
+                            (r["scenario"], r["k"], r["of"], r["call"], r["mode"]), dict(kind="fault-enum", result=r))
+    labels = info["retry_labels"]
+    outs = coq_eval(sorted(glob.glob(os.path.join(d, "cases_*.v"))))
+    for f, (rc, out) in sorted(outs.items()):
+        if rc != 0:
+            p.violation("model-eval-failed", out[-600:], dict(log=out[-2000:]), found_input=False)
+            continue
+        for m in re.finditer(r"r(\d+) =\s*(\[.*?\])\s*:\s*list", out, re.S):
+            hi = int(m.group(1))
+            mm = re.sub(r"\s+", " ", m.group(2))
+            if mm.strip() != "[]" and labels[hi].endswith("!swallowed") and ("MMsgs" in mm or "MDels" in mm or "MResp" in mm):
+                key = "accepted-publish-differs"
+                if key not in seen:
+                    seen.add(key)
+                    p.violation(key, "Publish reported success although a statement failed (%s), and the messages / deliveries it left behind are not those of a successful publish: %s" %
+                                (labels[hi], mm[:300]), dict(kind="fault-retry", label=labels[hi], coq_case=_extract_case(f, hi)))
+    return p
+
+
 def part_services_fault(ctx):
     """the prune service's own transaction handling under a storage fault on its SECOND run"""
     p = Part("service-faults")
@@ -1081,8 +1125,8 @@ CHECKS = {
     "C01": dict(
         props=["C01", "Tie"],
         parts=[engine_part("delivery", 40, 600, 45, claim_c01, ["deliveries_created", "pull_nonempty", "redelivery", "nack_rescheduled"]),
-               stream_part(STREAM_C01)],
-        rule="[+ stream part: a message nacked on a stream (Nack list or zero deadline, also through the StreamingPull RPC) must not end up acknowledged] generated histories (profile delivery: publish/pull/ack/modack/nack/seek/jobs/clock jumps) against the production gRPC server; every step is checked "
+               stream_part(STREAM_C01), part_publish_faults],
+        rule="[+ publish under fault: with a storage fault at every statement position (sampled for a 150-message batch) a Publish that answers OK has stored everything] [+ stream part: a message nacked on a stream (Nack list or zero deadline, also through the StreamingPull RPC) must not end up acknowledged] generated histories (profile delivery: publish/pull/ack/modack/nack/seek/jobs/clock jumps) against the production gRPC server; every step is checked "
              "locally: model step from the implementation's pre-state vs response and full five-table post-state; non-trivial = deliveries created, non-empty pulls, redeliveries",
         assumptions=BUS_ASSUME),
     "C02": dict(
